@@ -92,16 +92,14 @@ func hoverKind(content string) string {
 
 var c08Fx map[string]bool
 
-// c08Fixes probes the real code with canary inputs for the three delivered repairs
-// (repo_patches/fix-completion-edit-start.diff, fix-link-range.diff, fix-fold-ranges.diff).
+// c08Fixes probes the real code with canary inputs for the delivered repairs
+// (fix-link-range: upstream 04b7a3e, fix-fold-ranges: upstream 4d2f7df, fix-utf16-columns).
 func c08Fixes() map[string]bool {
 	if c08Fx != nil {
 		return c08Fx
 	}
 	ctx := context.Background()
 	fx := map[string]bool{}
-	r := server.VerifTextEditRange("account x", protocol.Position{Line: 0, Character: 0}, 1)
-	fx["clamp"] = r != nil && r.Start.Character == 0
 	srv := server.NewServer()
 	uri := protocol.DocumentURI("file:///nonexistent-hlverif/canary.journal")
 	td := protocol.TextDocumentIdentifier{URI: uri}
